@@ -218,10 +218,14 @@ def main():
                 print("this replay file records an exception that escaped a sweep; re-run the check itself to reproduce it")
                 sys.exit(1)
             msgs = mod.replay(case, ctx)
-        except BaseException:
-            traceback.print_exc()
-            print("HARNESS-ERROR property=%s (replay)" % pid)
-            sys.exit(2)
+        except BaseException as e:
+            where = core.tree_frame(e) if isinstance(e, Exception) and not isinstance(e, core.HarnessError) else None
+            if where is None:
+                traceback.print_exc()
+                print("HARNESS-ERROR property=%s (replay)" % pid)
+                sys.exit(2)
+            # the library itself raised on the recorded case and no oracle expected it
+            msgs = ["escaped_exception:%s@%s: the library raised %s: %s" % (type(e).__name__, where, type(e).__name__, str(e)[:300])]
         if msgs:
             for m in msgs[:5]:
                 print("replay fails: %s" % m)
